@@ -39,7 +39,7 @@ def mk_tb(name="TbM", ports=1, width=1):
     return tb
 
 
-def gen_attrs(rnd, tb, depth=2):
+def gen_attrs(rnd, tb, depth=2, reuse=0.0):
     """list of (attr, expectation) where expectation is a small description checked against the proto"""
     import hdl21 as h
     from hdl21.sim import data as d
@@ -57,7 +57,18 @@ def gen_attrs(rnd, tb, depth=2):
             return d.LogSweep(num(), num(), rnd.randint(1, 20))
         return d.PointSweep([num() for _ in range(rnd.randint(1, 3))])
 
+    made = []
+
     def analysis(dep):
+        # (with `reuse`: an analysis object built earlier - nested ones included - is used again, at top level or inside
+        #  another nest; a finished object can never come to contain itself this way)
+        if made and rnd.random() < reuse:
+            return rnd.choice(made)
+        a = analysis_(dep)
+        made.append(a)
+        return a
+
+    def analysis_(dep):
         kinds = ["op", "dc", "ac", "tran", "noise", "custom"] + (["sweep", "monte"] if dep > 0 else [])
         k = rnd.choice(kinds)
         name = rnd.choice([None, None, f"an{rnd.randint(0, 99)}"])
@@ -162,10 +173,16 @@ def check_sim(case):
     rnd = random.Random(seed)
     w = {"case": repr(case)}
     tbs = [mk_tb("TbA")] + ([] if share or nsims == 1 else [mk_tb("TbB")])
+    # which testbench each Sim of the list uses: alternating, or (longer lists) a seeded pattern such as A B A, A A B, A B B A
+    pattern = [k % len(tbs) for k in range(nsims)]
+    if nsims > 2 and len(tbs) > 1:
+        pattern = [rnd.randrange(2) for _ in range(nsims)]
+        if len(set(pattern)) == 1:
+            pattern[rnd.randrange(nsims)] ^= 1
     sims, attr_lists = [], []
     for k in range(nsims):
-        tb = tbs[k % len(tbs)]
-        attrs = gen_attrs(rnd, tb)
+        tb = tbs[pattern[k]]
+        attrs = gen_attrs(rnd, tb, reuse=0.3 if seed % 3 == 0 else 0.0)
         attr_lists.append(attrs)
         if style == "procedural":
             sims.append(d.Sim(tb=tb, attrs=list(attrs)))
@@ -334,7 +351,7 @@ def cases(tier, seed):
     k = 0
     for style in ("procedural", "add", "class"):
         for i in range(n):
-            for nsims, share in ((1, False), (2, True), (2, False), (3, True)):
+            for nsims, share in ((1, False), (2, True), (2, False), (3, True), (3, False), (4, False)):
                 if i % 4 != (nsims + share) % 4 and nsims > 1:
                     continue
                 yield (style, seed * 100003 + k, nsims, share)
